@@ -171,8 +171,6 @@ def decode_escapes(s):
 def mismatch_key(m, gvals, evals):
     """stable identity of one difference: the construct, not the file"""
     at, got, exp = m["at"], m["got"], m["exp"]
-    soft = _words.get("scenic_soft", set())
-    names = idents_in(exp, set()) & soft
     gtag = got[1] if isinstance(got, tuple) and got[0] == "N" else None
     etag = exp[1] if isinstance(exp, tuple) and exp[0] == "N" else None
     # --- f-strings (several independent defects of the Python >= 3.12 token path)
@@ -208,10 +206,8 @@ def mismatch_key(m, gvals, evals):
     # --- Scenic operators shadowing Python ones
     if etag == "BinOp" and gtag == "Call" and is_matmul(exp):
         return "matmul-operator-becomes-Vector"
-    if names:
-        return "soft-keyword-as-identifier:" + ",".join(sorted(names))
-    if at == "List.elts" and got == "~":
-        return "empty-list-target-elts-None"
+    if at in ("List.elts", "Tuple.elts") and got == "~":
+        return "empty-target-elts-None"
     g = gtag or (got if isinstance(got, str) and got == "~" else ("list" if isinstance(got, tuple) else "atom"))
     e = etag or (exp if isinstance(exp, str) and exp == "~" else ("list" if isinstance(exp, tuple) else "atom"))
     return f"diff:{at}:{g}!={e}" if m["kind"] != "loc" else f"lineno:{got[1]}"
@@ -220,6 +216,18 @@ def mismatch_key(m, gvals, evals):
 def is_matmul(t):
     return (isinstance(t, tuple) and t[0] == "N" and t[1] == "BinOp" and len(t[3]) == 3
             and isinstance(t[3][1], tuple) and t[3][1][1] == "MatMult")
+
+
+def reserved_words():
+    """Scenic's reserved words = exactly the hard and soft keywords the grammar data lists that are not Python's (the
+    words of `scenicWordMask` in the Lean theorem), minus the names the property itself puts in scope through a documented
+    rewrite (`ego`, `workspace`: soft keywords of the grammar that plain Python may read; they become accessor calls)"""
+    w = _words.get("reserved")
+    if w is None:
+        w = (_words.get("scenic_hard", set()) | _words.get("scenic_soft", set())) \
+            - set(_cfg.get("tracked", ())) - {_cfg.get("globalParams")}
+        _words["reserved"] = w
+    return w
 
 
 def name_tokens(src):
@@ -252,7 +260,11 @@ def compare(src, detail=False):
     except RecursionError:
         return {"outcome": "skip:recursion"}
     used = name_tokens(src)
-    reserved = used & _words.get("scenic_hard", set())
+    reserved = used & reserved_words()
+    if reserved:
+        # a Scenic reserved word (hard or soft keyword of scenic.gram) used as an identifier: outside the quantifier of
+        # the property and outside the hypothesis `wordFree scenicWordMask` of the theorem, whatever Scenic does with it
+        return {"outcome": "excluded:reserved-word-as-identifier", "words": sorted(reserved)}
     why = None
     try:
         expect = mirror_compile(_cfg, cref)
@@ -260,12 +272,10 @@ def compare(src, detail=False):
         expect, why = None, str(e)
     except RecursionError:
         return {"outcome": "skip:recursion"}
-    res = {"nodes": count_nodes(cref), "soft": sorted(used & _words.get("scenic_soft", set()))}
+    res = {"nodes": count_nodes(cref)}
     try:
         got = canon(scenic_compile(src), gvals)
     except _real["ParseError"] as e:
-        if reserved:
-            return dict(res, outcome="excluded:reserved-word-as-identifier", words=sorted(reserved))
         if expect is None:
             if why == "class-annotation":
                 return dict(res, outcome="SCENIC-REJECTS", msg=str(e)[:200], keys=["reject:class-body-annotated-assignment"])
@@ -279,9 +289,6 @@ def compare(src, detail=False):
     except Exception as e:
         return dict(res, outcome="SCENIC-CRASH", msg=f"{type(e).__name__}: {str(e)[:200]}",
                     keys=[f"crash:{type(e).__name__}"])
-    if reserved:
-        # a Scenic hard keyword used as an identifier: outside the quantifier of the property whatever happens
-        return dict(res, outcome="excluded:reserved-word-as-identifier", words=sorted(reserved))
     if expect is None:
         key = {"class-annotation": "class-body-annotation-becomes-property"}.get(why, "accepted-but-should-reject:" + why)
         return dict(res, outcome="SCENIC-ACCEPTS", why=why, keys=[key])
@@ -342,13 +349,10 @@ def reject_key(src, ref, msg):
         return "reject:class-body-statement-starting-with-subscripted-name"
     if "annotated assignments are not allowed" in msg:
         return "reject:class-body-annotated-assignment"
-    soft = sorted(name_tokens(src) & _words.get("scenic_soft", set()))
     if msg.strip() == "invalid syntax" or "invalid syntax" in msg:
         if has_chained_ifexp(ref):
             # confirm on the smallest failing statement that the chained conditional alone is refused
             return "reject:conditional-expression-in-else-branch"
-    if soft:
-        return "reject:soft-keyword-as-identifier:" + ",".join(soft)
     return "reject:" + m
 
 
@@ -439,10 +443,6 @@ def child_statements(src):
 
 
 def key_class(k):
-    """keys that name the soft keywords found in the text: same class whatever the words"""
-    for p in ("reject:soft-keyword-as-identifier", "soft-keyword-as-identifier"):
-        if k.startswith(p):
-            return p
     return k
 
 
@@ -483,10 +483,6 @@ def minimise_result(text, r):
         m = minimise(text, lambda x: kc in {key_class(k) for k in x.get("keys", [])})
         if len(m) < len(best):
             best = m
-    if any("soft-keyword" in k for k in keys):
-        r2 = compare(best)
-        if r2.get("keys"):
-            keys = [k for k in keys if "soft-keyword" not in k] + [k for k in r2["keys"] if "soft-keyword" in k]
     return best, keys
 
 
@@ -613,6 +609,9 @@ CONSTRUCTS = {
     "fstring-debug": 'x = f"{a=} {b = }"\n',
     "fstring-debug-spec": 'x = f"{a=:>5}"\n',
     "fstring-braces": 'x = f"{{{a}}} {{}} {b}}}"\n',
+    "fstring-debug-conv": 'x = f"z{c=!s}{d=:}{ e = !r:>{w}}"\n',
+    "fstring-escape-spec": 'x = f"{a:\\n}\\x41\\N{EM DASH}\\\\{b}" rf"\\n{c}"\n',
+    "fstring-braces-only": 'x = f"{{" f"}}" f"{{x}} {a}" f"{ {1, 2} }"\n',
     "fstring-raw": 'x = rf"\\d{a}\\n" f\'\' F"""multi\n{line}\n"""\n',
     "fstring-concat": 'x = "a" f"{b}" "c" f"d{e}"\n',
     "bytes-concat": 'x = b"a" b"b"\ny = "a" \'b\' """c"""\n',
@@ -622,17 +621,21 @@ CONSTRUCTS = {
     "class-annotated": "class C:\n    x: int\n",
     "class-annassign": "class C:\n    x: int = 3\n",
     "class-subscript-stmt": "class C(B):\n    table = dict(B.table)\n    table['k'] = 1\n",
+    "class-subscript-augassign": "class C(B):\n    t[0] += 1\n    t[0].append(3)\n    u[0], v = 1, 2\n",
     "match": "match p:\n    case [1, 2, *rest] if rest:\n        pass\n    case {'k': v, **kw}:\n        pass\n    case Point(x=0) | None:\n        pass\n    case _:\n        pass\n",
     "walrus": "if (n := len(a)) > 10:\n    print(n)\nx = [y := f(x), y ** 2]\n",
     "star-targets": "a, *b = c\n[d, *e], f = g\nfor i, *j in k:\n    pass\n",
     "empty-list-target": "[] = x\n",
+    "empty-tuple-target": "() = x\n[[], ()] = y\n",
+    "empty-del-for-with-targets": "del [], ()\nfor [] in x: pass\nwith a as (): pass\n",
     "star-call": "f(*a, b, *c, d=1, **e)\nprint(*args, sep='')\n",
     "lifted-calls": "x = str(1) + str(int(float('2')))\ny = int\n",
-    "tracked-names": "x = ego.position\ny = workspace\nz = globalParameters.foo\n",
+    "tracked-names": "x = ego.foo\ny = workspace\nz = globalParameters.foo\nw = [ego, f(workspace)]\n",
     "lambda": "f = lambda x, *a, y=1, **k: (x, a, y, k)\n",
     "comprehensions": "a = [x for x in y if x for z in x]\nb = {k: v for k, v in d.items()}\nc = {x async for x in y}\nd = (i for i in range(3))\n",
     "conditional": "x = a if b else c\n",
     "conditional-chained": "x = 0 if a else 1 if b else 2\n",
+    "conditional-lambda-else": "x = a if b else lambda: 1\ny = [p if q else r if s else t for i in j if k]\n",
     "async": "async def f():\n    async with a as b, c:\n        async for x in y:\n            await z\n",
     "try": "try:\n    pass\nexcept (A, B) as e:\n    raise X from e\nelse:\n    pass\nfinally:\n    pass\n",
     "try-star": "try:\n    pass\nexcept* G as g:\n    pass\n",
@@ -652,6 +655,7 @@ CONSTRUCTS = {
     "semicolons": "a = 1; b = 2; c = 3\n",
     "docstring": '"""module doc"""\ndef f():\n    """doc"""\n',
     "unicode-identifier": "ǅ = 1\n",
+    "unicode-identifier-uses": "def ﬁ(ﬁ, *ﬁ2, **ﬁ3):\n    global ªx\n    return ﬁ.ﬁ(ﬁ=ﬁ)\n",
     "soft-keyword-take": "take(2, a)\n",
     "soft-keyword-visible": "x = visible[header]\n",
     "soft-keyword-names": "left = right = 1\nposition.top = front\nmodel = initial.final\nnext(steps)\ntype(x)\n",
@@ -703,6 +707,9 @@ def compare_fragment(kind, expr):
     except SyntaxError:
         return {"outcome": "skip:not-python"}
     cref = canon(ref, evals)
+    reserved = name_tokens(expr) & reserved_words()
+    if reserved:
+        return {"outcome": "excluded:reserved-word-as-identifier", "words": sorted(reserved)}
     if kind == "require" and isinstance(ref.body[0].value, (ast.BoolOp, ast.IfExp)) or (
             kind == "require" and isinstance(ref.body[0].value, ast.UnaryOp) and isinstance(ref.body[0].value.op, ast.Not)):
         return {"outcome": "skip:temporal-operators"}   # and/or/not/if at the top of a requirement are Scenic's temporal operators
@@ -973,7 +980,7 @@ def run(ctx):
     files = corpus_files()
     ctx.extra["corpus"] = {"files_available": len(files)}
     tasks = select_tasks(ctx, files)
-    budget_s = ctx.budget(75, 900)
+    budget_s = float(os.environ.get("VERIF_C09_TIMEBOX") or ctx.budget(75, 900))   # seconds for the corpus files
     nproc = max(1, int(os.environ.get("VERIF_C09_WORKERS") or min(16, os.cpu_count() or 4)))
     outcomes = collections.Counter()
     lean_texts = []
@@ -1014,10 +1021,8 @@ def run(ctx):
         if "lines" in r:
             lines_total += r["lines"]
             ctx.hist("statement_lines", "1" if r["lines"] <= 1 else "2-5" if r["lines"] <= 5 else "6-20" if r["lines"] <= 20 else "21-80" if r["lines"] <= 80 else ">80")
-        if r.get("soft"):
-            ctx.hist("uses_scenic_soft_keyword_as_identifier", "yes")
-        elif oc in ("same", "DIFF"):
-            ctx.hist("uses_scenic_soft_keyword_as_identifier", "no")
+        for w in r.get("words", []):
+            ctx.hist("excluded_for_reserved_word", w)
         if oc.startswith("skip"):
             continue
         ctx.case((r.get("file"), r.get("line"), r.get("min") or r.get("text") or r.get("secs")),
